@@ -12,6 +12,7 @@ menu <h0> <h1> | <action>* | <n>+    -> "<turn> <pot> <toRaise> <toShove> | <sec
                                         does not pack). An entry whose float translation (`actionizeF32`)
                                         differs from the integer one is marked with a trailing `!F32`.
 pack <u8 code>*                      -> "<path u64> <decoded u8 code>*"   (`panic`: more than 16 edges)
+path64 <u8 code>*                    -> "<path u64> <i64::from(path)> <u64 of Path::from(that i64)>"   (`panic`: more than 16 edges)
 edge <u8 code>                       -> "<u64 code> <u8 code of Edge::from(u64 code)>"
 f32 <num> <den> <lo> <hi>            -> `(pot as f32 * (num as f32 / den as f32)) as i16` for pot = lo..=hi
 ```
@@ -61,6 +62,18 @@ def handle (line : String) : String :=
           match RP.Codec.pathToEdges p with
           | none => s!"{p} panic"
           | some back => joinSp (toString p :: back.map codeOf)
+  | "path64" :: cs =>
+    match parseNats? cs with
+    | none => "bad-op"
+    | some cs =>
+      match RP.Codec.optAll RP.Codec.edgeOfU8 cs with
+      | none => "bad-op"
+      | some es =>
+        match RP.Codec.pathOfEdges es with
+        | none => "panic"
+        | some p =>
+          let i := RP.Codec.pathToI64 p
+          s!"{p} {i} {RP.Codec.pathOfI64 i}"
   | ["edge", c] =>
     match c.toNat? with
     | none => "bad-op"
